@@ -18,6 +18,7 @@ pub mod c11;
 pub mod c17;
 pub mod c18;
 pub mod c19;
+pub mod c20;
 
 pub fn meta(id: &str, tier: &str) -> Option<CheckMeta> {
     match id {
@@ -38,6 +39,7 @@ pub fn meta(id: &str, tier: &str) -> Option<CheckMeta> {
         "C17" => Some(c17::meta(tier)),
         "C18" => Some(c18::meta(tier)),
         "C19" => Some(c19::meta(tier)),
+        "C20" => Some(c20::meta(tier)),
         _ => None,
     }
 }
@@ -50,7 +52,7 @@ pub fn master(id: &str, tier: &str, seed: u64) -> i32 {
 }
 
 pub fn prebuild(_id: &str) -> Result<(), String> {
-    for z in crate::zoo::core_zoo().into_iter().chain(std::iter::once(crate::zoo::tmpl())).chain(std::iter::once(crate::zoo::tagl())) {
+    for z in crate::zoo::core_zoo().into_iter().chain(std::iter::once(crate::zoo::tmpl())).chain(std::iter::once(crate::zoo::tagl())).chain(std::iter::once(crate::zoo::corpl())) {
         crate::lang::build(&z.spec, tree_sitter_generate::OptLevel::default()).map_err(|e| format!("{}: {}", z.name, e))?;
     }
     Ok(())
@@ -75,6 +77,7 @@ pub fn worker(ctx: &Ctx, res: &mut ShardResult) {
         "C17" => c17::worker(ctx, res),
         "C18" => c18::worker(ctx, res),
         "C19" => c19::worker(ctx, res),
+        "C20" => c20::worker(ctx, res),
         _ => panic!("unknown check"),
     }
 }
@@ -102,6 +105,7 @@ pub fn replay(path: &str) -> i32 {
         "C17" => c17::replay(&v["case"]),
         "C18" => c18::replay(&v["case"]),
         "C19" => c19::replay(&v["case"]),
+        "C20" => c20::replay(&v["case"]),
         _ => vec![format!("no replayer for {}", id)],
     };
     let _ = json!(null);
